@@ -2,19 +2,21 @@
 # Robustness against realistic behaviour-preserving edits written by sub-agents (benign/agents/<id>/patch.diff):
 # each is applied to its own scratch worktree and EVERY check is run against it (VERIF_REPO). Expected exit 0;
 # exit 2 (UNDECIDED) is listed; exit 1 would be a false alarm. Usage: tools/benign_agents_sweep.sh [ids…]
-out=/verif/benign/AGENTS_RESULTS.tsv
-ids="$@"; [ -z "$ids" ] && { ids=$(ls /verif/benign/agents); : > $out; }
+ROOT=$(cd "$(dirname "$0")/.." && pwd)
+out=${SWEEP_OUT:-$ROOT/benign/AGENTS_RESULTS.tsv}
+PROPS=${SWEEP_PROPS:-"C01 C02 C03 C04 C05 C06 C07 C08 C09 C10 C11 C12 C13 C14 C15 C16 C17 C18 C19 C20"}
+ids="$@"; [ -z "$ids" ] && { ids=$(ls $ROOT/benign/agents); : > $out; }
 run_one() {
   id=$1; W=/tmp/bw-$id
   git -C /repo worktree remove --force $W 2>/dev/null; git -C /repo worktree add -q --detach $W HEAD || return
-  (cd $W && git apply /verif/benign/agents/$id/patch.diff) || { echo -e "$id\t-\tPATCH-DOES-NOT-APPLY" >> $out; git -C /repo worktree remove --force $W; return; }
+  (cd $W && git apply $ROOT/benign/agents/$id/patch.diff) || { echo -e "$id\t-\tPATCH-DOES-NOT-APPLY" >> $out; git -C /repo worktree remove --force $W; return; }
   export VERIF_REPO=$W VERIF_EVIDENCE_DIR=/var/tmp/bw-ev-$id VERIF_REPLAY_DIR=/var/tmp/bw-rp-$id VERIF_JOBS=3
-  for pr in C01 C02 C03 C04 C05 C06 C07 C08 C09 C10 C11 C12 C13 C14 C15 C16 C17 C18 C19 C20; do
-    r=$(cd /verif && ./check $pr 2>&1); rc=$?
+  for pr in $PROPS; do
+    r=$(cd $ROOT && ./check $pr 2>&1); rc=$?
     echo -e "$id\t$pr\trc=$rc\t$(echo "$r" | grep -E '^(HELD|VIOLATION|UNDECIDED)|failed obligation' | head -2 | tr '\n' ' ' | cut -c1-260)" >> $out
   done
   git -C /repo worktree remove --force $W; rm -rf /var/tmp/bw-ev-$id /var/tmp/bw-rp-$id
 }
-export -f run_one; export out
-echo $ids | tr ' ' '\n' | xargs -P 4 -I{} bash -c 'run_one {}'
+export -f run_one; export out ROOT PROPS
+echo $ids | tr ' ' '\n' | xargs -P ${SWEEP_PAR:-4} -I{} bash -c 'run_one {}'
 echo AGENTSWEEPDONE
